@@ -61,10 +61,13 @@ def run_case(rs, ctx):
     arms = list(cfg["arms"])
     n_chunks = 1 if scale else int(rs.integers(1, 5))
     ops = []
+    # one arm stays without rows for the first `late_from` training calls (possibly for ever): its first observations
+    # then arrive through partial_fit, often one row at a time
     zero_arm = arms[int(rs.integers(len(arms)))] if rs.integers(2) else None
+    late_from = int(rs.integers(1, 6))
     for c in range(n_chunks):
-        n = int(rs.integers(1 if c else max(2, d), 14))
-        pool = [a for a in arms if a != zero_arm] or arms
+        n = 1 if (c and rs.integers(3) == 0) else int(rs.integers(1 if c else max(2, d), 14))
+        pool = [a for a in arms if a != zero_arm or c >= late_from] or arms
         dd = [pool[int(i)] for i in rs.integers(0, len(pool), n)]
         X = rs.normal(1, 2, (n, d)).tolist()
         y = rs.normal(0, 3, n).tolist()
